@@ -291,8 +291,34 @@ def triomphe_functions(h):
     for c in h.checks:
         loc = c.get("location", {}) or {}
         if in_repo_src(loc.get("file", "")):
-            fs.add(re.sub(r"::<.*", "", c.get("function", "")))
+            fs.add(_strip_generics(c.get("function", "")))
     return fs
+
+
+def _strip_generics(name):
+    """`triomphe::Arc::<u8>::clone` -> `triomphe::Arc::clone` (balanced angle brackets removed)"""
+    if name.startswith("<"):
+        depth = 0
+        for j, ch in enumerate(name):
+            if ch == "<":
+                depth += 1
+            elif ch == ">" and name[j - 1] != "-":
+                depth -= 1
+                if depth == 0:
+                    return "<" + _strip_generics(name[1:j]) + ">" + _strip_generics(name[j + 1:])
+        return name
+    out, depth, i = [], 0, 0
+    while i < len(name):
+        ch = name[i]
+        if ch == "<" :
+            depth += 1
+        elif ch == ">" and (i == 0 or name[i - 1] != "-"):
+            depth = max(0, depth - 1)
+        elif depth == 0:
+            out.append(ch)
+        i += 1
+    r = "".join(out).replace("::::", "::")
+    return r if r.strip(":") else name
 
 
 def harness_summary(h):
